@@ -202,6 +202,8 @@ pub fn run(tier: Tier) -> i32 {
         vec![(Some(0.0), Some(0.1)), (None, None), (None, None)],
         vec![(None, None), (None, None), (None, None)],
         vec![(Some(0.0), Some(0.001)), (Some(0.001), Some(0.002)), (Some(0.002), Some(0.0031))],
+        // beyond the small scope: a label that ends after 399 s (about 80 000 frames: above 65 536)
+        vec![(Some(0.0), Some(0.1)), (Some(0.1), Some(399.0)), (Some(399.0), Some(399.5))],
     ];
     for (ename, base, ns) in [("V0", &v0, 5usize), ("G", &gen, 2usize)] {
         for &(rate, fp) in &unit_cells {
@@ -212,6 +214,10 @@ pub fn run(tier: Tier) -> i32 {
                 // the alignment decides the frame counts, whatever the speaking rate; speeds other than 1 only where
                 // every label is covered by a known end (the statement does not say at which speed trailing labels
                 // without an end fall back to their model durations)
+                let far = pat.iter().any(|(_, e)| e.map(|x| x > 100.0).unwrap_or(false));
+                if far && !(ename == "G" && (rate, fp) == unit_cells[1] && speed == 1.0) {
+                    continue;
+                }
                 if speed != 1.0 && (pat.last().unwrap().1.is_none() || (rate, fp) != unit_cells[0] && (rate, fp) != unit_cells[5]) {
                     continue;
                 }
